@@ -184,6 +184,9 @@ def run_path(I: Interp, finfo: FuncInfo, con: Contract):
     if outer is not None:
         st.entry_params.update(outer.locals)
     st.cfg["spec_frame"] = sf
+    entry_sf = Frame(finfo.module, finfo.cls, fr.selfv, finfo, outer, con)  # parameters as they were at entry (for `decreases`)
+    entry_sf.locals.update(fr.locals)
+    st.cfg["spec_frame_entry"] = entry_sf
     st.old_stack.append(st.entry_heap)
     for label, e in con.requires:
         st.assume(spec_bool(I, e, sf))
